@@ -180,6 +180,7 @@ func (s *State) snapshot() *Snapshot {
 	for k, v := range s.heap {
 		sn.heap[k] = v
 	}
+	s.eng.coordSnapshot(sn) // models_coord.go: allocation counter, for fresh()/keeps*() clauses
 	return sn
 }
 
@@ -402,6 +403,9 @@ func (s *State) toTerm(v Value) (Term, error) {
 		}
 		if x.Kind == pkGlobal {
 			return s.eng.globalRef(x.Glob), nil
+		}
+		if t, ok := s.eng.fieldAddrTerm(x); ok { // models_coord.go: opt-in opaque field addresses
+			return t, nil
 		}
 		return Term{}, fmt.Errorf("interior or stack pointer (kind %d) escapes into a term", x.Kind)
 	case *FuncRef:
